@@ -1,10 +1,179 @@
-import TTModel.C07_Transforms
-/-! C07 property theorems (in progress) -/
+import TTProofs.Lemmas.C07_Calc
+/-!
+# C07 — every change of variables reports its true log-Jacobian and inverse
+
+Theorems about the executable model `TTModel/C07_Transforms.lean` (the formulas of
+`transforms.py`, `rate_transform.py`, `tree_height_transform.py`, `parameter.py` as coded, after
+the repairs F02/F03). "True" log-Jacobian = `Real.log |det (jac f x)|` where `jac f x` is the
+matrix of partial derivatives of the forward map (`TTProofs/Lemmas/C07_Jac.lean`); the generic
+lemma is `tri_logdet_lower/upper`. For element-wise transforms torch's convention is followed: the
+log-Jacobian is reported per element and equals `log |f'(xᵢ)|`.
+-/
 namespace TTProps.C07
 open TT.C07
 
-/-- `TransformedParameter`: whatever sets of the wrapped parameter happened, a call returns the
-log-Jacobian for the CURRENT value -/
+variable {n : ℕ}
+
+/-! ## generic -/
+
+/-- **tri_logdet**: if output `i` depends only on inputs `j ≤ i` and `∂fᵢ/∂xᵢ = dᵢ ≠ 0`, then
+`log|det J| = Σ log|dᵢ|` -/
+theorem tri_logdet (f : (Fin n → ℝ) → Fin n → ℝ) (h : LowerDep f) (x : Fin n → ℝ)
+    (d : Fin n → ℝ) (hd : ∀ i, HasDerivAt (fun t => f (Function.update x i t) i) (d i) (x i))
+    (hne : ∀ i, d i ≠ 0) :
+    Real.log |(jac f x).det| = ∑ i, Real.log |d i| :=
+  tri_logdet_lower f h x d hd hne
+
+/-! ## CumSumTransform -/
+
+theorem cumsum_dep (X : Nat → ℝ) (i j : Nat) (h : i < j) (t : ℝ) :
+    cumsumFwd (Function.update X j t) i = cumsumFwd X i := csum_update_lt X h t
+
+/-- **cumsum_reported_eq_true**: the reported `0` is the true `log|det J|` -/
+theorem cumsum_reported_eq_true (x : Fin n → ℝ) :
+    cumsumLd n (ext x) (cumsumFwd (ext x)) = Real.log |(jac (lift cumsumFwd) x).det| := by
+  rw [lift_logdet_lower cumsumFwd (fun _ _ => 1) cumsum_dep
+    (fun X i => hasDerivAt_csum_diag X i) x (fun _ => one_ne_zero)]
+  simp [cumsumLd]
+
+/-- **cumsum_inv_fwd** -/
+theorem cumsum_inv_fwd (x : Nat → ℝ) (i : Nat) : cumsumInv (cumsumFwd x) i = x i :=
+  diffs_csum x i
+
+/-! ## CumSumExpTransform -/
+
+theorem cumsumexp_diag (X : Nat → ℝ) (i : Nat) :
+    HasDerivAt (fun t => cumsumexpFwd (Function.update X i t) i) (cumsumexpFwd X i) (X i) := by
+  have h := (hasDerivAt_csum_diag X i).exp
+  simp only [csum_update_self_at, mul_one] at h
+  exact h
+
+/-- **cumsumexp_reported_eq_true**: `x.cumsum(-1).sum(-1)` is the true `log|det J|` (the Jacobian is
+triangular with diagonal `yᵢ = exp(Σ_{j≤i} xⱼ)`) -/
+theorem cumsumexp_reported_eq_true (x : Fin n → ℝ) :
+    cumsumexpLd n (ext x) (cumsumexpFwd (ext x)) = Real.log |(jac (lift cumsumexpFwd) x).det| := by
+  rw [lift_logdet_lower cumsumexpFwd (fun X i => cumsumexpFwd X i)
+    (fun X i j h t => by simp only [cumsumexpFwd, csum_update_lt X h t])
+    cumsumexp_diag x (fun i => ne_of_gt (Real.exp_pos _))]
+  unfold cumsumexpLd
+  rw [sumTo_eq]
+  refine Finset.sum_congr rfl fun i _ => ?_
+  simp only [cumsumexpFwd, TT.trans_exp_real, abs_of_pos (Real.exp_pos _), Real.log_exp]
+
+/-- **cumsumexp_inv_fwd** -/
+theorem cumsumexp_inv_fwd (x : Nat → ℝ) (i : Nat) : cumsumexpInv (cumsumexpFwd x) i = x i := by
+  unfold cumsumexpInv cumsumexpFwd
+  simp only [TT.trans_exp_real, TT.trans_log_real, Real.log_exp]
+  exact diffs_csum x i
+
+/-! ## SoftPlusTransform (element-wise) -/
+
+/-- **softplus_reported_eq_true**: element `i` of the reported log-Jacobian, `-softplus(-xᵢ)`, is
+`log |d softplus/dx (xᵢ)|` -/
+theorem softplus_reported_eq_true (x : Nat → ℝ) (i : Nat) :
+    softplusLd x (softplusFwd x) i = Real.log |deriv (fun t => softplus t) (x i)| := by
+  rw [(hasDerivAt_softplus (x i)).deriv, abs_of_pos (sigm_pos _), log_sigm]
+  rfl
+
+/-- the forward map is element-wise: output `i` depends on input `i` only -/
+theorem softplus_elementwise (X : Nat → ℝ) (i j : Nat) (h : i ≠ j) (t : ℝ) :
+    softplusFwd (Function.update X j t) i = softplusFwd X i := by
+  simp [softplusFwd, Function.update_of_ne h]
+
+/-- **softplus_inv_fwd** -/
+theorem softplus_inv_fwd (x : Nat → ℝ) (i : Nat) : softplusInv (softplusFwd x) i = x i :=
+  softplus_inv (x i)
+
+/-! ## CumSumSoftPlusTransform (as repaired, F02) -/
+
+theorem cumsumsoftplus_eq (X : Nat → ℝ) (i : Nat) :
+    cumsumsoftplusFwd X i = softplus (csum X i) := by
+  simp only [cumsumsoftplusFwd, softplus_real, TT.trans_exp_real, TT.trans_log_real, add_comm]
+
+theorem cumsumsoftplus_diag (X : Nat → ℝ) (i : Nat) :
+    HasDerivAt (fun t => cumsumsoftplusFwd (Function.update X i t) i) (sigm (csum X i)) (X i) := by
+  have h1 := hasDerivAt_csum_diag X i
+  have h2 := hasDerivAt_softplus (csum (Function.update X i (X i)) i)
+  have := h2.comp (X i) h1
+  simp only [csum_update_self_at, mul_one] at this
+  refine this.congr_of_eventuallyEq (Filter.Eventually.of_forall fun t => ?_)
+  simp [cumsumsoftplus_eq, Function.comp]
+
+/-- **cumsumsoftplus_reported_eq_true**: `-softplus(-x.cumsum(-1)).sum(-1)` is the true `log|det J|`
+(triangular Jacobian with diagonal `σ(Σ_{j≤i} xⱼ)`) -/
+theorem cumsumsoftplus_reported_eq_true (x : Fin n → ℝ) :
+    cumsumsoftplusLd n (ext x) (cumsumsoftplusFwd (ext x))
+      = Real.log |(jac (lift cumsumsoftplusFwd) x).det| := by
+  rw [lift_logdet_lower cumsumsoftplusFwd (fun X i => sigm (csum X i))
+    (fun X i j h t => by simp only [cumsumsoftplus_eq, csum_update_lt X h t])
+    cumsumsoftplus_diag x (fun i => ne_of_gt (sigm_pos _))]
+  unfold cumsumsoftplusLd
+  rw [sumTo_eq]
+  refine Finset.sum_congr rfl fun i _ => ?_
+  rw [abs_of_pos (sigm_pos _), log_sigm]
+
+/-- **cumsumsoftplus_inv_fwd** -/
+theorem cumsumsoftplus_inv_fwd (x : Nat → ℝ) (i : Nat) :
+    cumsumsoftplusInv (cumsumsoftplusFwd x) i = x i := by
+  unfold cumsumsoftplusInv
+  have : (fun i => TT.Trans.log (TT.Trans.exp (cumsumsoftplusFwd x i) - 1)) = csum x := by
+    funext k
+    rw [cumsumsoftplus_eq]
+    exact softplus_inv (csum x k)
+  rw [this]
+  exact diffs_csum x i
+
+/-- the unrepaired formulas are refuted at a concrete point (`n = 1`, `x = 0`): the reported `0`
+is not the log-Jacobian, and the old inverse does not return the input -/
+theorem cumsumsoftplus_old_refuted :
+    (cumsumsoftplusLdOld 1 (ext (fun _ : Fin 1 => (0 : ℝ)))
+        (cumsumsoftplusFwd (ext (fun _ : Fin 1 => (0 : ℝ))))
+      ≠ Real.log |(jac (lift (n := 1) cumsumsoftplusFwd) (fun _ => 0)).det|) ∧
+    cumsumsoftplusInvOld (cumsumsoftplusFwd (fun _ => (0 : ℝ))) 0 ≠ 0 := by
+  constructor
+  · rw [← cumsumsoftplus_reported_eq_true]
+    simp only [cumsumsoftplusLdOld, cumsumsoftplusLd, sumTo_eq, Finset.univ_unique,
+      Finset.sum_singleton]
+    have h : csum (ext fun _ : Fin 1 => (0 : ℝ)) (default : Fin 1).val = 0 := by
+      simp [csum, ext]
+    rw [h, softplus_real]
+    simp only [neg_zero, Real.exp_zero]
+    have : (0 : ℝ) < Real.log (1 + 1) := Real.log_pos (by norm_num)
+    linarith
+  · simp only [cumsumsoftplusInvOld, diffs, if_true, cumsumsoftplus_eq, csum, softplus_real,
+      Real.exp_zero, TT.trans_log_real]
+    have h2 : Real.log (1 + 1) ≠ 0 := ne_of_gt (Real.log_pos (by norm_num))
+    have h1 : Real.log (1 + 1) ≠ 1 := by
+      have h := Real.add_one_lt_exp (x := (1 : ℝ)) one_ne_zero
+      have := Real.log_lt_log (by norm_num : (0 : ℝ) < 1 + 1) h
+      rw [Real.log_exp] at this
+      exact ne_of_lt this
+    have h3 : Real.log (1 + 1) ≠ -1 := by
+      have : (0 : ℝ) < Real.log (1 + 1) := Real.log_pos (by norm_num)
+      linarith
+    intro h
+    rcases Real.log_eq_zero.mp h with h | h | h
+    · exact h2 h
+    · exact h1 h
+    · exact h3 h
+
+/-! ## LogTransform (element-wise) -/
+
+/-- **log_reported_eq_true**: element `i` of the reported `-y` is `log |d log/dx (xᵢ)|` -/
+theorem log_reported_eq_true (x : Nat → ℝ) (i : Nat) (hx : 0 < x i) :
+    logLd x (logFwd x) i = Real.log |deriv Real.log (x i)| := by
+  rw [Real.deriv_log, abs_of_pos (inv_pos.mpr hx), Real.log_inv]
+  rfl
+
+/-- **log_inv_fwd** -/
+theorem log_inv_fwd (x : Nat → ℝ) (i : Nat) (hx : 0 < x i) : logInv (logFwd x) i = x i :=
+  Real.exp_log hx
+
+/-! ## TransformedParameter -/
+
+/-- **tp_call_current**: whatever sequence of updates of the wrapped parameter happened (each
+notifying the transformed parameter), a call returns the log-Jacobian for the CURRENT value:
+`ld x (f x)` with `x` the last value set -/
 theorem tp_call_current {α β : Type} (f : α → α) (ld : α → α → β) (x0 : α) (xs : List α) :
     let tp := xs.foldl TP.setX (TP.init f x0)
     (TP.call f ld tp).1 = ld (xs.getLastD x0) (f (xs.getLastD x0)) := by
@@ -34,5 +203,20 @@ theorem tp_call_current {α β : Type} (f : α → α) (ld : α → α → β) (
   have h := hx xs (TP.init f x0) (Or.inr rfl)
   rw [inv tp h.1, h.2]
   rfl
+
+/-- calls and reads in between change nothing: the state after a call still satisfies the
+invariant, so the next call is again current -/
+theorem tp_call_twice {α β : Type} (f : α → α) (ld : α → α → β) (tp : TP α)
+    (h : tp.needUpdate = true ∨ tp.cached = f tp.x) :
+    (TP.call f ld (TP.call f ld tp).2).1 = ld tp.x (f tp.x) := by
+  unfold TP.call TP.refresh
+  by_cases hu : tp.needUpdate = true
+  · simp [hu]
+  · rcases h with h | h
+    · exact absurd h hu
+    · simp [hu, h]
+
+example : (TP.call (fun x : Nat => x + 1) (fun x y => x * y)
+    ([5, 7].foldl TP.setX (TP.init (fun x => x + 1) 1))).1 = 7 * 8 := by decide
 
 end TTProps.C07
